@@ -733,6 +733,7 @@ func main() {
 	ctx := common.ParseFlags("C19")
 	optionsChecks(ctx)
 	customChecks(ctx)
+	optionReuseChecks(ctx)
 	ambientOracle(ctx)
 	ctx.Finish()
 }
